@@ -510,6 +510,58 @@ func snapNoText(s dirSnap) dirSnap {
 	return out
 }
 
+// snapNoIndirect blanks the indirect flag of the requirements.
+func snapNoIndirect(s dirSnap) dirSnap {
+	out := dirSnap{}
+	for k, v := range s {
+		for _, e := range v {
+			if i := strings.Index(e, " indirect="); k == "require" && i >= 0 {
+				e = e[:i]
+			}
+			out[k] = append(out[k], e)
+		}
+		sort.Strings(out[k])
+	}
+	return out
+}
+
+func commentIsIndirect(tok string) bool {
+	f := strings.Fields(strings.TrimPrefix(tok, "//"))
+	return len(f) == 1 && f[0] == "indirect" || len(f) > 1 && f[0] == "indirect;"
+}
+
+// hasDoubleIndirect: the starting file has a require line whose end-of-line comment,
+// after removing one leading "indirect;", still parses as an indirect marker (shape of
+// known finding K9: setIndirect(false) removes only the first marker).
+func hasDoubleIndirect(c editCase) bool {
+	st, err := editParse(c.Work, c.start())
+	if err != nil {
+		return false
+	}
+	check := func(verb string, l *modfile.Line) bool {
+		if verb != "require" || len(l.Suffix) == 0 {
+			return false
+		}
+		text := strings.TrimSpace(strings.TrimPrefix(l.Suffix[0].Token, "//"))
+		return strings.HasPrefix(text, "indirect;") && commentIsIndirect("//"+text[len("indirect;"):])
+	}
+	for _, s := range st.syntax().Stmt {
+		switch s := s.(type) {
+		case *modfile.Line:
+			if check(s.Token[0], s) {
+				return true
+			}
+		case *modfile.LineBlock:
+			for _, l := range s.Line {
+				if check(s.Token[0], l) {
+					return true
+				}
+			}
+		}
+	}
+	return false
+}
+
 // hasCommentedTextBlock: the starting file has a retract or module block that carries
 // comments of its own (shape of known finding K6: Rationale / Deprecated are taken from
 // the block's comments when the line has none, so they change when a line enters such a
@@ -630,6 +682,8 @@ func c15Oracle(c editCase) (msg string, shape string) {
 		shape := ""
 		if snapDiff(snapNoText(snapOf(run.st)), snapNoText(snapOf(st2))) == "" && hasCommentedTextBlock(c) {
 			shape = "K6"
+		} else if snapDiff(snapNoIndirect(snapOf(run.st)), snapNoIndirect(snapOf(st2))) == "" && hasDoubleIndirect(c) {
+			shape = "K9"
 		}
 		return fmt.Sprintf("typed lists vs strict re-parse differ: %s\noutput:\n%s", d, out), shape
 	}
@@ -794,7 +848,7 @@ func editRecord(c *hx.Ctx, ec editCase, proj string) *editRun {
 	c.Check("map-order-independent", same, "", mo, "three runs of the same sequence gave different results: "+ec.String())
 	fn := map[string]string{"typed": "EditTyped", "syntax": "EditSyntax", "set": "EditAll", "all": "EditAll", "format": "EditFormat"}[proj]
 	c.Case(fn, arg, editResult(first, proj))
-	if garbage, _ := seqFlags(ec.Ops); !garbage && first.panicAt < 0 {
+	if garbage, _ := seqFlags(ec.Ops); !garbage && first.panicAt < 0 && ec.Probe != "corpus-K9" {
 		// the theorem statements (coherence before and after, errors and final typed
 		// lists as the keyed model predicts, valid arguments) evaluated inside the model
 		c.Case("EditInv", arg, wire.L(wire.Bool(true), wire.Bool(true), wire.Bool(true), wire.Bool(true), wire.Bool(true)))
@@ -829,7 +883,36 @@ func editShapeCounts(c *hx.Ctx, st *editState) {
 	}
 }
 
+// c15Corpus: fixed cases run first on every seed, one per open known finding (sub-)shape,
+// so that the findings are reported deterministically.
+func c15Corpus() []editCase {
+	mk := func(probe, file string, ops ...gen.EditOp) editCase {
+		return editCase{Start: hex.EncodeToString([]byte(file)), Ops: ops, Probe: probe}
+	}
+	cleanup := gen.EditOp{Name: "Cleanup"}
+	return []editCase{
+		// K6 (a): AddRetract with empty rationale into a retract block that has leading comments
+		mk("corpus-K6a", "module example.com/m\n// c2\nretract (\n\tv1.0.0 // c3\n\tv1.2.3 // c4\n)\n",
+			gen.EditOp{Name: "AddRetract", Args: []string{"v1.9.0", "v1.9.0", ""}}, cleanup),
+		// K6 (b): Cleanup collapses a commented one-line retract block
+		mk("corpus-K6b", "module example.com/m\n// c5\nretract (\n\t// c6\n\t[v1.0.0, v1.2.3] // c7\n)\n", cleanup),
+		// K6 (c): leading comments of the only block line are separated by a blank line
+		mk("corpus-K6c", "module example.com/m\n\nretract (\n\t// c3\n\n\t// c4\n\tv1.9.0\n)\n", cleanup),
+		// K9: setIndirect(false) removes only the first "indirect;"
+		mk("corpus-K9", "module example.com/m\n\nrequire example.com/a v1.0.0 // indirect; indirect; x\n",
+			gen.EditOp{Name: "SetRequire", Reqs: []gen.ReqArg{{Path: "example.com/a", Version: "v1.0.0", Indirect: false}}}, cleanup),
+	}
+}
+
 func runC15(c *hx.Ctx) {
+	for _, ec := range c15Corpus() {
+		if editRecord(c, ec, "typed") == nil {
+			continue
+		}
+		msg, shape := c15Oracle(ec)
+		c.Check("typed-lists=reparse,no-placeholders", msg == "", shape, ec, msg)
+		c.Count("corpus:" + ec.Probe + ":shape=" + shape)
+	}
 	// op sequences
 	for i := 0; i < c.N(3500); i++ {
 		ec := editDraw(c, i%5 == 0)
